@@ -362,6 +362,16 @@ def panel(tier, seed):
         dict(D=2, target="sphere", box="sym", noise="declared", sigma=0.5, options=dict(max_fun_evals=80, noise_final_samples=1)),
         dict(D=2, target="outside", box="log", noise="specified", sigma=0.2, cons="band", options=dict(max_fun_evals=70, noise_final_samples=0)),
     ]
+    # runs chosen for the BRANCHES of the skeleton they exercise (measured with branch_cover): pure polling (search_n_try=0)
+    # gives successful polls below the cap, incremental polls (0 < improvement <= sufficient) and early-stopped polls;
+    # search_size_locked=False lets the search mesh follow the poll mesh below 2^-10
+    base += [
+        dict(D=2, target="abs", box="sym", noise="det", options=dict(max_fun_evals=120, search_n_try=0)),
+        dict(D=3, target="outside", box="sym", noise="det", options=dict(max_fun_evals=150, search_n_try=0)),
+        dict(D=2, target="rosen", box="sym", noise="det", options=dict(max_fun_evals=120, search_n_try=0, complete_poll=True)),
+        dict(D=1, target="abs", box="sym", noise="det", options=dict(max_fun_evals=120, search_size_locked=False, tol_mesh=1e-9, tol_stall_iters=60)),
+        dict(D=2, target="sphere", box="sym", noise="declared", sigma=0.3, options=dict(max_fun_evals=100, search_n_try=0, noise_final_samples=2)),
+    ]
     for i, s in enumerate(base):
         s = dict(s)
         s["seed"] = seed * 100 + i
@@ -388,6 +398,16 @@ def panel(tier, seed):
                               cons=rng.choice([None, None, "ball", "half", "band"]), x0=rng.choice(["given", "given", "absent", "onbound"]),
                               options=opts, seed=seed * 1000 + 100 + i))
     return specs
+
+
+def panel_nondefault(seed):
+    """valid NON-default improvement policies / controller options (not for C04/C06, whose theorems assume the default policy)"""
+    return [
+        dict(D=2, target="sphere", box="sym", noise="det", options=dict(max_fun_evals=80, sloppy_improvement=False), seed=seed * 100 + 61),
+        dict(D=2, target="abs", box="sym", noise="det", options=dict(max_fun_evals=100, sloppy_improvement=False, search_n_try=0), seed=seed * 100 + 62),
+        dict(D=2, target="ellipsoid", box="sym", noise="det", options=dict(max_fun_evals=100, skip_poll_after_search=False), seed=seed * 100 + 63),
+        dict(D=2, target="sphere", box="sym", noise="det", options=dict(max_fun_evals=100, search_n_try=1, accelerate_mesh_steps=1), seed=seed * 100 + 64),
+    ]
 
 
 def _run_one(args):
@@ -426,3 +446,66 @@ def traces(specs_faults, tag):
                 if "harness_exc" not in tr:
                     f.write_bytes(pickle.dumps(tr))
     return out
+
+
+# --------------------------------------------------------------------------- branch coverage of the model by a panel
+
+def branch_cover(P):
+    """Which branches of Model/Skeleton.v a parsed run exercises (for the evidence: generator quality bounds the tie).
+    Returns a dict class -> count.  Purely descriptive; never gates."""
+    from collections import Counter
+    c = Counter()
+    if not P or P.get("opts") is None:
+        return c
+    o = P["opts"]
+    for m, e in zip(P["iters"], P["expect"]):
+        SI = m["SI"] or 0.0
+        if e["did_search"]:
+            ev = m["search"]["ev"]
+            if ev is None:
+                c["search:empty"] += 1
+            elif ev["fault"]:
+                c["search:fault"] += 1
+            elif ev["impr"] > SI:
+                c["search:success"] += 1
+            elif ev["impr"] > 0:
+                c["search:incremental"] += 1
+            else:
+                c["search:fail"] += 1
+            if ev is not None and not ev["fault"] and not ev["newrow"]:
+                c["search:merged-row"] += 1
+        else:
+            c["search:none"] += 1
+        if e["did_poll"]:
+            evs = m["poll"]["evals"]
+            best = max([0.0] + [x["impr"] for x in evs if not x["fault"]])
+            if any(x["fault"] for x in evs):
+                c["poll:fault"] += 1
+            elif best > SI:
+                c["poll:good"] += 1
+                if e["k"] is not None and e["k"] == o["maxgrid"]:
+                    c["poll:good-at-cap"] += 1
+            elif best > 0:
+                c["poll:incremental"] += 1
+            else:
+                c["poll:fail"] += 1
+            if m["poll"]["hist"] is not None and best <= SI:
+                c["poll:accel-tested"] += 1
+                if m["poll"]["hist"] < o["tolfun"]:
+                    c["poll:quartered"] += 1
+            n = len(evs)
+            if n < min(m["poll"]["ncand"], 2 * o["D"]):
+                c["poll:stopped-early"] += 1
+            if m["poll"]["ncand"] < 2 * o["D"]:
+                c["poll:reduced-set"] += 1
+            if any((not x["fault"]) and (not x["newrow"]) for x in evs):
+                c["poll:merged-row"] += 1
+        elif e["did_search"] and e["scount"] == 0 and e["spree"] and e["spree"] > 0:
+            c["poll:skipped-after-search"] += 1
+        else:
+            c["poll:none"] += 1
+        if e["fin"]:
+            c["stop:msg%s" % e["msg"]] += 1
+        if m.get("noisy") is not None and e["did_poll"]:
+            c["noisy:iteration"] += 1
+    return c
